@@ -20,7 +20,7 @@ def universe_hash():
 
 
 def plan(tier, seed, complete=False):
-    items, zinfo = PL.plan_docs(tier, seed, complete, check="C02")
+    items, zinfo = PL.plan_docs(tier, seed, complete, check="C02", fx=700)
     return {
         "items": items, "zones": zinfo, "exhaustive": False,
         "rule": "documents of the frozen universes Z1 (all), Z2/Z3/Z4 (seed-chosen indices; thorough: all); identity oracle "
@@ -52,4 +52,4 @@ def _mon(R, pm, key, doc, toks):
 
 
 def run_items(items, job):
-    return _tok.drive(items, None, _mon)
+    return _tok.drive(items, None, _mon, job=job)
